@@ -108,7 +108,9 @@ def csrf_token_required(
             has_payload: bool = flask.request.method in {'POST', 'PUT'}
             try:
                 if has_payload and flask.request.is_json:
-                    token = flask.request.get_json().get('csrf_token', None)
+                    payload = flask.request.get_json()
+                    if isinstance(payload, dict):
+                        token = payload.get('csrf_token', None)
                 if token is None:
                     token = flask.request.args.get('csrf_token')
                 if token is None and has_payload:
